@@ -293,7 +293,7 @@ func (w *accWorld) doStep(conns map[string]*accConn, st accStep) (J, error) {
 		// wait until the server has noticed (session removed) so that later observations are stable
 		ctx := w.tr.Ctx
 		for i := 0; i < 400; i++ {
-			if s, _ := ctx.Get(cs.local).(hap.Session); s == nil {
+			if sessionOf(ctx, cs.local) == nil {
 				break
 			}
 			time.Sleep(time.Millisecond)
@@ -366,7 +366,41 @@ func (w *accWorld) doStep(conns map[string]*accConn, st accStep) (J, error) {
 			// the reply is still understood and reported as enc=true instead of timing out
 			cs.c.Install(cs.sess)
 		}
-		r = cs.exchange(ref.BuildRequest("POST", "/pair-verify", ref.CTTLV, body), false)
+		req := ref.BuildRequest("POST", "/pair-verify", ref.CTTLV, body)
+		if st.P == "genuine_inject" {
+			// the on-path adversary appends a plaintext protected request to the segment that carries the finish
+			inj, _ := json.Marshal(J{"characteristics": []J{{"aid": w.sw.Accessory.ID, "iid": w.onIID, "value": !w.sw.Switch.On.GetValue()}}})
+			// ... and may re-frame the (plaintext) finish request itself on the way: bare line feeds, a chunked body
+			variant := []string{"asis", "asis", "lf", "chunked"}[w.rng.Intn(4)]
+			out["reframed"] = variant
+			switch variant {
+			case "lf":
+				if i := bytes.Index(req, []byte("\r\n\r\n")); i > 0 {
+					req = append(bytes.Replace(req[:i+4], []byte("\r\n"), []byte("\n"), -1), req[i+4:]...)
+				}
+			case "chunked":
+				req = []byte(fmt.Sprintf("POST /pair-verify HTTP/1.1\r\nHost: hc.local\r\nContent-Type: %s\r\nTransfer-Encoding: chunked\r\n\r\n%x\r\n%s\r\n0\r\n\r\n", ref.CTTLV, len(body), body))
+			}
+			req = append(req, ref.BuildRequest("PUT", "/characteristics", ref.CTJSON, inj)...)
+		}
+		r = cs.exchange(req, false)
+		if st.P == "genuine_inject" {
+			// whatever comes back after the answer to the finish is the answer to the appended request
+			out["injserved"] = false
+			if !cs.dead {
+				cs.c.Timeout = 300 * time.Millisecond
+				if m, err := cs.c.ReadMsg(); err == nil && m.Status >= 200 && m.Status < 300 {
+					out["injserved"] = true
+				}
+				cs.c.Timeout = 2 * time.Second
+			}
+			// the appended bytes have ended this connection, one way or the other
+			cs.dead = true
+			cs.c.Close()
+			for i := 0; i < 400 && sessionOf(w.tr.Ctx, cs.local) != nil; i++ {
+				time.Sleep(time.Millisecond)
+			}
+		}
 		if st.P == "genuine" && r.http == 200 && r.state == 4 && r.terr == 0 {
 			cs.expectEnc = true
 			w.tr.WaitEncrypted(cs.local)
@@ -405,7 +439,7 @@ func (w *accWorld) checkV2(vc *ref.VerifyClient) bool {
 
 func (w *accWorld) finishBody(conns map[string]*accConn, cs *accConn, kind string) ([]byte, error) {
 	rnd := func(n int) []byte { b := make([]byte, n); w.rng.Read(b); return b }
-	needs := map[string]bool{"replayown": true, "genuine": true, "wrongkey": true, "stale": true, "reordered": true, "unknown": true, "self": true, "selfkey": true, "reflect": true, "badtlv": true}
+	needs := map[string]bool{"replayown": true, "genuine": true, "genuine_inject": true, "wrongkey": true, "stale": true, "reordered": true, "unknown": true, "self": true, "selfkey": true, "reflect": true, "badtlv": true}
 	if needs[kind] && cs.cur == nil {
 		return nil, fmt.Errorf("VFinish(%s) on %s without an accepted start: not concretisable", kind, cs.name)
 	}
@@ -424,12 +458,12 @@ func (w *accWorld) finishBody(conns map[string]*accConn, cs *accConn, kind strin
 	}
 	if cs.cur == nil {
 		switch kind {
-		case "genuine", "wrongkey", "reordered", "unknown", "self", "selfkey", "reflect", "crossname":
+		case "genuine", "genuine_inject", "wrongkey", "reordered", "unknown", "self", "selfkey", "reflect", "crossname":
 			return nil, fmt.Errorf("%s finish without an accepted start on this connection", kind)
 		}
 	}
 	switch kind {
-	case "genuine":
+	case "genuine", "genuine_inject":
 		if !cs.legit {
 			return nil, fmt.Errorf("genuine finish on a key-less connection")
 		}
